@@ -5,40 +5,80 @@
 (* HTTP client could observe afterwards.  The monitor of MuxMonitor.tla is *)
 (* stepped with those observations; one invariant per property.            *)
 (***************************************************************************)
-EXTENDS MuxMonitor, Json
+EXTENDS HlsMuxer, Json
 
 Trace == ndJsonDeserialize("trace.ndjson")
 
-CONSTANT Want      \* which clause families are evaluated (the others are not computed)
+CONSTANTS Want,     \* which clause families are evaluated (the others are not computed)
+          Conform   \* TRUE: also step the implementation-shaped model and compare (conformance)
 
-VARIABLES l, cfg, mon
+VARIABLES l, cfg, mon,
+          mm, mode      \* implementation-shaped model stepped next to the real muxer; "ok" | "drift"
 
-tvars == <<l, cfg, mon>>
+tvars == <<l, cfg, mon, mm, mode>>
+
+Max2(a, b) == IF a > b THEN a ELSE b
+
+\* projections compared for conformance
+PLView(pl) ==
+  IF pl.ok # 1 THEN [ok |-> pl.ok]
+  ELSE [ok |-> 1, td |-> pl.td, msn |-> pl.msn, pt |-> pl.pt, hb |-> pl.hb, su |-> pl.su, map |-> pl.map, hint |-> pl.hint,
+        ent |-> [i \in 1..Len(pl.ent) |-> [id |-> pl.ent[i].id, gap |-> pl.ent[i].gap, dur |-> pl.ent[i].dur,
+                                            ntp |-> pl.ent[i].ntp,
+                                            parts |-> [j \in 1..Len(pl.ent[i].parts) |-> [id |-> pl.ent[i].parts[j].id, dur |-> pl.ent[i].parts[j].dur, ind |-> pl.ent[i].parts[j].ind]]]],
+        open |-> [j \in 1..Len(pl.open) |-> [id |-> pl.open[j].id, dur |-> pl.open[j].dur, ind |-> pl.open[j].ind]]]
+
+UnitView(u) == [id |-> u.id, dts |-> u.dts, dur |-> u.dur, sync |-> u.sync]
+EmitsView(es) ==
+  [i \in 1..Len(es) |-> [s |-> es[i].s, kind |-> es[i].kind, id |-> es[i].id,
+     frags |-> [j \in 1..Len(es[i].frags) |-> [seq |-> es[i].frags[j].seq,
+        tr |-> [k \in 1..Len(es[i].frags[j].tr) |-> [t |-> es[i].frags[j].tr[k].t,
+           u |-> [n \in 1..Len(es[i].frags[j].tr[k].u) |-> UnitView(es[i].frags[j].tr[k].u[n])]]]]]]]
 
 NoCfg == [variant |-> "none"]
 AllTrue == [c01 |-> TRUE, c02 |-> TRUE, c03 |-> TRUE, c04 |-> TRUE, c05 |-> TRUE, c18 |-> TRUE, c19 |-> TRUE, c16 |-> TRUE]
 
-TraceInit == l = 1 /\ cfg = NoCfg /\ mon = [f |-> AllTrue]
+TraceInit == l = 1 /\ cfg = NoCfg /\ mon = [f |-> AllTrue] /\ mm = <<>> /\ mode = "ok" /\ TLCSet(2, 0) /\ TLCSet(3, 0)
 
 TraceReset ==
   /\ l <= Len(Trace) /\ Trace[l].ev = "reset"
   /\ cfg' = Trace[l]
   /\ mon' = MonInit(Trace[l])
+  /\ mm' = IF Trace[l].startErr = 0 THEN MInit(Trace[l]) ELSE <<>>
+  /\ mode' = "ok"
   /\ l' = l + 1
 
 TraceWrite ==
   /\ l <= Len(Trace) /\ Trace[l].ev = "write"
   /\ mon' = MonStep(cfg, mon, Trace[l], Want)
   /\ cfg' = cfg
+  \* conformance (never a verdict, DESIGN 3): the model takes the same Write; what it would serve must be what
+  \* the real muxer served
+  /\ IF mode = "ok" /\ Conform
+     THEN LET m1 == MWrite(cfg, mm, Trace[l])
+              ob == MRender(cfg, m1)
+              w  == Trace[l]
+              same == /\ (m1.err <=> w.ok = 0)
+                      /\ (w.ok = 1 =>
+                            /\ [s \in 1..NS(cfg) |-> PLView(ob.pl[s])] = [s \in 1..NS(cfg) |-> PLView(w.pl[s])]
+                            /\ (NoEmit(cfg) \/ EmitsView(ob.emit) = EmitsView(w.emit)))
+          IN IF same THEN mm' = MarkSeen(cfg, m1) /\ mode' = "ok"
+             ELSE mm' = mm /\ mode' = "drift" /\ PrintT(<<"DRIFT", l>>)
+     ELSE mm' = mm /\ mode' = mode
   /\ l' = l + 1
 
 TraceEnd ==
   /\ l <= Len(Trace) /\ Trace[l].ev = "end"
-  /\ UNCHANGED <<cfg, mon>>
+  /\ UNCHANGED <<cfg, mon, mm>>
+  /\ mode' = mode
+  /\ TLCSet(2, TLCGet(2) + 1)
+  /\ (mode = "ok" => TLCSet(3, TLCGet(3) + 1))
   /\ l' = l + 1
 
 TraceNext == TraceReset \/ TraceWrite \/ TraceEnd
 TraceSpec == TraceInit /\ [][TraceNext]_tvars
+
+Post == PrintT(<<"TRACES", TLCGet(2)>>) /\ PrintT(<<"CONFORMING", TLCGet(3)>>)
 
 C01_UnitsPreserved   == mon.f.c01
 C02_Boundaries       == mon.f.c02
